@@ -49,8 +49,12 @@ async def _bridge_life(nports: int, acts: List[str]) -> str:
                     elif a.startswith("send:"):
                         i = int(a[5:])
                         n0 = count[0]
+                        # nobody holds the port -> the datagram goes nowhere (short grace only); somebody other than the
+                        # harness holds it -> that can only be the bridge: a delivery must follow, wait for it generously
+                        # (so a loaded machine cannot turn a delivery into a "dropped")
+                        held_by_bridge = i not in others and not BH.bindable(ports[i])
                         tx.sendto(dgram, ("127.0.0.1", ports[i]))
-                        got = await BH.pump(lambda: count[0] > n0, timeout=0.06)
+                        got = await BH.pump(lambda: count[0] > n0, timeout=2.0 if held_by_bridge else 0.03)
                         res = "delivered" if got else "dropped"
                         if count[0] > n0 + 1:
                             res = "delivered-more-than-once"
@@ -189,12 +193,13 @@ async def _client_life(api_type: str, acts: List[str]) -> str:
             except Exception as e:  # noqa
                 res = "raise_" + C.exc_name(e)
             # what the device sees: let FIN / accept propagate
-            want = None
-            for _ in range(200):
+            seen, same = None, 0
+            for _ in range(400):
                 await asyncio.sleep(0.0005)
-                if want == dev.open:
+                same = same + 1 if seen == dev.open else 0
+                seen = dev.open
+                if same >= 3:
                     break
-                want = dev.open
             out.append(f"{res}:{int(api.connected)}:{dev.open}")
     finally:
         A.open_connection = saved
